@@ -311,6 +311,22 @@ def run(res, tier):
                 has_def = any(x['k'] == 'DefaultStmt' for x in sw.walk())
                 res.ob('HOSTILE', f.where(sw), 'switch over %s in %s has a default' % (c0.get('n'), f.q.split('::')[-1]), has_def, function=f.q, key='HOSTILE|%s|default:%s' % (f.q, c0.get('n')), nontrivial=False,
                        message='a switch over the archived operator code in %s has no default: an out-of-range code from a hostile archive leaves the result undefined' % f.q)
+    # ---- INDEX-USED: a value filter looks at the item its index names
+    res.rule('INDEX-USED', 'in every Matches() of a ValueQueryFilter subclass the field named by GetFieldName() is read with GetIndex() as the item index (never through an overload that implies item 0)', floor=4)
+    n_iu = 0
+    for f in sorted((f for f in fx.funcs.values() if f.full and f.q.endswith('::Matches') and 'QueryFilter' in f.q), key=lambda f: (f.file, f.line, f.id)):
+        for c in f.walk():
+            if c['k'] != 'CXXMemberCallExpr' or not re.search(r'^muscle::Message::(Find|Get)\w+$', c.get('q') or '') or not c.args():
+                continue
+            if not any(x.is_call() and (x.get('q') or '').endswith('::GetFieldName') for x in c.args()[0].walk()):
+                continue
+            site = (f.file, c.get('l'), c.get('c'))
+            n_iu += 1
+            ok = any(x.is_call() and (x.get('q') or '').endswith('::GetIndex') for a in c.args()[1:] for x in a.walk()) or any(x['k'] == 'MemberExpr' and x.get('n') == '_index' for a in c.args()[1:] for x in a.walk())
+            res.ob('INDEX-USED', f.where(c), '%s reads the field item at GetIndex()' % f.q.split('::')[-2], ok, how=c.text(70), function=f.q, key='INDEX-USED|%s' % f.q.split('<')[0],
+                   message='%s reads `%s` without GetIndex(): the filter always looks at item 0, whatever index it was built (or restored) with, and bypasses the missing-item rule' % (f.q, c.text(60)))
+    if n_iu < 4:
+        raise AnalysisBroken('INDEX-USED: only %d field reads found in the value filters' % n_iu)
     res.explanation = ('Static decision of the archiving structure of the query filters: the archive operations of every SaveToArchive/SetFromArchive pair are extracted from the resolved AST (field-name literal, '
                        'accessor kind, default argument, base-class chaining) and compared; the data members read under Matches (through same-class helpers) must be read by the save side and written by the load '
                        'side in the class chain; factory, TypeCode() and enum are compared as tables; no Matches removes const; factory results are null-tested. Truth tables and the expression grammar are not decided.')
